@@ -31,7 +31,10 @@ pub struct IoState {
     pub eof_now: bool,
     pub closed: bool,
     pub read_waker: Option<Waker>,
+    /// bytes the peer has received: what was written AND flushed (the stream buffers its output until
+    /// a flush or shutdown, as a TLS session or any buffered writer does)
     pub written: Vec<u8>,
+    pub unflushed: Vec<u8>,
     pub shutdown: bool,
     pub reads: Vec<usize>,
     pub write_cap: usize,
@@ -84,14 +87,20 @@ impl AsyncWrite for ScriptIo {
     fn poll_write(self: Pin<&mut Self>, _cx: &mut Context<'_>, buf: &[u8]) -> Poll<std::io::Result<usize>> {
         let mut s = self.0.lock().unwrap();
         let n = if s.write_cap == 0 { buf.len() } else { buf.len().min(s.write_cap) };
-        s.written.extend_from_slice(&buf[..n]);
+        s.unflushed.extend_from_slice(&buf[..n]);
         Poll::Ready(Ok(n))
     }
     fn poll_flush(self: Pin<&mut Self>, _cx: &mut Context<'_>) -> Poll<std::io::Result<()>> {
+        let mut s = self.0.lock().unwrap();
+        let pending = std::mem::take(&mut s.unflushed);
+        s.written.extend_from_slice(&pending);
         Poll::Ready(Ok(()))
     }
     fn poll_shutdown(self: Pin<&mut Self>, _cx: &mut Context<'_>) -> Poll<std::io::Result<()>> {
-        self.0.lock().unwrap().shutdown = true;
+        let mut s = self.0.lock().unwrap();
+        let pending = std::mem::take(&mut s.unflushed);
+        s.written.extend_from_slice(&pending);
+        s.shutdown = true;
         Poll::Ready(Ok(()))
     }
 }
